@@ -30,12 +30,25 @@ def _bincount(x, weights=None, minlength=0):
     return out.view(sc.SymArr)
 
 
+def _allclose(a, b, rtol=1e-5, atol=1e-8, **k):
+    """np.allclose for symbolic entries: |a - b| <= atol + rtol |b| elementwise (every undetermined comparison is a path)"""
+    aa, bb = np.asarray(a, dtype=object), np.asarray(b, dtype=object)
+    if not any(isinstance(v, (sc.SR, sc.SI)) for v in list(aa.reshape(-1)) + list(bb.reshape(-1))):
+        return np.allclose(np.asarray(a, dtype=np.float64), np.asarray(b, dtype=np.float64), rtol=rtol, atol=atol, **k)
+    aa, bb = np.broadcast_arrays(aa, bb)
+    for u, v in zip(aa.reshape(-1), bb.reshape(-1)):
+        u, v = sc._lift(u), sc._lift(v)
+        if not bool(abs(u - v) <= abs(v) * rtol + atol):
+            return False
+    return True
+
+
 def setup():
     setup_cl()
     import nifty.cl.domains.rg_space as rg
     import nifty.cl.domains.power_space as ps
     import nifty.cl.domains.structured_domain as sd
-    shims_cl.proxy_np(rg)
+    shims_cl.proxy_np(rg, {"allclose": _allclose})
     shims_cl.proxy_float(rg)
     shims_cl.proxy_np(ps, {"bincount": _bincount})
     shims_cl.proxy_float(ps)
@@ -82,12 +95,32 @@ def h_rg(B, shape, harmonic):
             s2 = s2 + (m * dom.distances[a]) * (m * dom.distances[a])
         ref[idx] = s2
     B.eq("k-length table squared == sum (min(i, N - i) d)^2", [v * v for v in _vals(kv)], _vals(ref))
-    B.holds("k-lengths are non-negative", _all([sc._lift(v) >= 0 for v in _vals(kv)], B))
+    B.holds("k-lengths are non-negative", _all([_rel(B, v, ">=", 0) for v in _vals(kv)], B))
+    if nd > 1:
+        # multi-dimensional grids: lengths closer than 1e-12 x the largest length are merged (documented tolerance)
+        u = _vals(dom.get_unique_k_lengths())
+        kmax = None
+        for v in _vals(kv):
+            kmax = (sc._lift(v) if B.mode == "sym" else float(v)) if kmax is None else (sc._lift(kmax).maximum(v) if B.mode == "sym" else max(kmax, float(v)))
+        tol = kmax * 2e-12
+        B.holds("unique k-lengths are increasing", _all([_rel(B, u[i], "<", u[i + 1]) for i in range(len(u) - 1)], B))
+        B.holds("every pixel's k-length is (within the merging tolerance) one of the unique k-lengths",
+                _all([_any([_rel(B, abs((sc._lift(v) if B.mode == "sym" else float(v)) - w), "<=", tol) for w in u], B) for v in _vals(kv)], B))
+        B.holds("every unique k-length occurs in the table", _all([_any([_rel(B, v, "==", w) for v in _vals(kv)], B) for w in u], B))
     if nd == 1:
         u = _vals(dom.get_unique_k_lengths())
-        B.holds("unique k-lengths are strictly increasing", _all([sc._lift(u[i]) < u[i + 1] for i in range(len(u) - 1)], B))
-        B.holds("every pixel's k-length is one of the unique k-lengths", _all([_any([sc._lift(v) == w for w in u], B) for v in _vals(kv)], B))
-        B.holds("every unique k-length occurs in the table", _all([_any([sc._lift(v) == w for v in _vals(kv)], B) for w in u], B))
+        B.holds("unique k-lengths are strictly increasing", _all([_rel(B, u[i], "<", u[i + 1]) for i in range(len(u) - 1)], B))
+        B.holds("every pixel's k-length is one of the unique k-lengths", _all([_any([_rel(B, v, "==", w) for w in u], B) for v in _vals(kv)], B))
+        B.holds("every unique k-length occurs in the table", _all([_any([_rel(B, v, "==", w) for v in _vals(kv)], B) for w in u], B))
+
+
+def _rel(B, a, op, b):
+    """a op b as a symbolic truth value (symbolic back end) or a plain bool on floats (replay)"""
+    if B.mode == "sym":
+        a = sc._lift(a)
+        return {"<": a < b, "<=": a <= b, ">=": a >= b, "==": a == b}[op]
+    a, b = float(a), float(b)
+    return {"<": a < b, "<=": a <= b, ">=": a >= b, "==": a == b}[op]
 
 
 def _all(cs, B):
@@ -141,16 +174,16 @@ def h_power(B, n, binning):
         conds = []
         for kk, i in zip(kv, pindex):
             if i > 0:
-                conds.append(sc._lift(bb[i - 1]) < kk if B.mode == "sym" else bb[i - 1] < kk)
+                conds.append(_rel(B, bb[i - 1], "<", kk))
             if i < len(bb):
-                conds.append(sc._lift(kk) <= bb[i] if B.mode == "sym" else kk <= bb[i])
+                conds.append(_rel(B, kk, "<=", bb[i]))
         B.holds("every pixel lies between the bounds of its bin", _all(conds, B))
     else:
         # natural binning: pixels share a bin iff they have the same k-length
         conds = []
         for a in range(len(kv)):
             for c in range(a + 1, len(kv)):
-                same = (sc._lift(kv[a]) == kv[c]) if B.mode == "sym" else (kv[a] == kv[c])
+                same = _rel(B, kv[a], "==", kv[c])
                 if pindex[a] == pindex[c]:
                     conds.append(same)
                 else:
@@ -235,7 +268,6 @@ META = {
                           "nifty.cl.domain_tuple.DomainTuple.{make,__reduce__}", "nifty.cl.multi_domain.MultiDomain.{make,__reduce__}"],
     "bounds": {"grid": "1-D up to 7 pixels, 2-D up to 3x4", "bin bounds": "2-3 symbolic bounds", "identity histories": "2 (3 thorough) operations over 5 domain descriptions"},
     "stubs": ["float() / np.empty(float64) / astype(float64) inside the domain modules keep symbolic reals; np.bincount with symbolic weights is an explicit sum"],
-    "outside": ["unique k-lengths of multi-dimensional grids with unequal distances (tolerance-based merging of nearly equal lengths)",
-                "LMSpace / GLSpace / HPSpace geometry (ducc kernels, concrete tables)", "logarithmic / linear bin-bound helpers", "DOFSpace"],
+    "outside": [                "LMSpace / GLSpace / HPSpace geometry (ducc kernels, concrete tables)", "logarithmic / linear bin-bound helpers", "DOFSpace"],
     "assumptions": ["distances > 0, bin bounds positive and strictly increasing"],
 }
